@@ -823,6 +823,7 @@ class HandshakeSettings(object):
 
     def _sanity_check_implementations(self, other):
         """Remove all backends that are not loaded."""
+        other.cipherImplementations = other.cipherImplementations[:]
         if not cryptomath.m2cryptoLoaded:
             self._remove_all_matches(other.cipherImplementations, "openssl")
         if not cryptomath.pycryptoLoaded:
